@@ -86,6 +86,8 @@ def check_case(ctx, case):
     sc = case["scale"]
     C = rng.normal(size=(6, 6))
     C = (C + C.T) * sc
+    if case["seed"] % 2:
+        C = ctx.buf("C6", C)
     ctx.case(case, nontrivial=True)
     nrm = float(np.linalg.norm(C))
     tol = 1e-9 * (1 + nrm)
@@ -127,6 +129,8 @@ def check_case(ctx, case):
     ctx.check("rotate_law_general_tensor", e <= 1e-9 * (1 + np.linalg.norm(g)), case, err=e)
     # polar decomposition + invariants on a hostile 3x3
     M = matrix3(rng, case["mat"])
+    if case["seed"] % 2:
+        M = ctx.buf("M3", M)
     ctx.cls(f"mat={case['mat']}")
     mn = float(np.linalg.norm(M))
     for left in (True, False):
